@@ -1564,6 +1564,11 @@ func verifyIdentity(srv *t38.Srv) error {
 	if err != nil {
 		return err
 	}
+	if v.IsErr() && strings.Contains(v.Str, "catching up") {
+		// a server that comes up as a follower refuses SERVER until it has caught
+		// up; t38.Start itself verifies that this process owns the listening socket
+		return nil
+	}
 	if got := serverField(v, "id"); got != cfg.ServerID {
 		return fmt.Errorf("server at %s has id %q, expected %q: port taken by another server", srv.Addr, got, cfg.ServerID)
 	}
